@@ -39,6 +39,7 @@ TReset ==
      /\ dgod' = [primary |-> d.primary, tpc |-> d.tpc, rec |-> d.rec]
      /\ dslots' = <<Slot(d.slots[1].txn, 0), Slot(d.slots[2].txn, 0)>>
   /\ dpages' = {} /\ pend' = <<>> /\ vparts' = (0 :> 0 @@ 1 :> 0) /\ parent' = (0 :> 0 @@ 1 :> 0)
+  /\ gone' = (0 :> {} @@ 1 :> {}) /\ pins' = (0 :> {} @@ 1 :> {})
   /\ cur' = None /\ nextVer' = 1 /\ nextTxn' = 0 /\ acked' = 0 /\ visible' = 0
   /\ crashes' = 0 /\ grows' = 0 /\ bad' = FALSE /\ explicit' = FALSE
 
@@ -52,7 +53,7 @@ TClose == Ev("bclose") /\ pend = <<>> /\ ~dgod.rec /\ UNCHANGED <<cvars, explici
 
 TCBegin ==
   /\ Ev("cbegin") /\ cur.stage = "idle"
-  /\ IF Line.kind = "nd" THEN UNCHANGED cvars ELSE Begin(Line.kind)
+  /\ IF Line.kind = "nd" THEN UNCHANGED cvars ELSE Begin(Line.kind, Line.sp, {})
   /\ explicit' = (Line.kind # "nd")
 
 \* the caller is told: a durable commit has had its second sync; the header in memory is the one the
@@ -81,7 +82,7 @@ SlotT(x) == x.slots[Other(hdr.primary)].txn
 \* SetSlot . WriteHdr1 (with an implicit Begin for redb's own commits)
 HdrOne(kind) ==
   LET x == Line.h
-      c == IF cur.stage = "idle" THEN [ver |-> nextVer, kind |-> kind, stage |-> "pages"] ELSE cur
+      c == IF cur.stage = "idle" THEN [ver |-> nextVer, kind |-> kind, stage |-> "pages", sp |-> FALSE] ELSE cur
       h2 == [hdr EXCEPT !.slots[Other(hdr.primary)] = Slot(SlotT(x), c.ver)]
   IN /\ (cur.stage = "idle" /\ ~explicit) \/ (cur.stage = "pages" /\ cur.kind = kind)
      /\ x.primary = hdr.primary /\ SlotT(x) # hdr.slots[Other(hdr.primary)].txn
@@ -91,16 +92,15 @@ HdrOne(kind) ==
      /\ pend' = pend \o HdrWrites(h2)
      /\ cur' = [c EXCEPT !.stage = IF kind = "2pc" THEN "sync1" ELSE "swap"]
      /\ IF cur.stage = "idle"
-        THEN /\ parent' = ([parent EXCEPT ![nextVer] = visible] @@ (nextVer + 1) :> 0)
-             /\ vparts' = (vparts @@ (nextVer + 1) :> 0)
+        THEN /\ NewVersion(nextVer, visible, {}, FALSE)
              /\ nextVer' = nextVer + 1
-        ELSE UNCHANGED <<parent, vparts, nextVer>>
+        ELSE UNCHANGED <<parent, vparts, gone, pins, nextVer>>
      /\ UNCHANGED <<dgod, dslots, dpages, acked, visible, crashes, grows, bad>>
 
 \* SetSlot . SkipHdr1 . Swap: one-phase only
 HdrMerged ==
   LET x == Line.h
-      c == IF cur.stage = "idle" THEN [ver |-> nextVer, kind |-> "1pc", stage |-> "pages"] ELSE cur
+      c == IF cur.stage = "idle" THEN [ver |-> nextVer, kind |-> "1pc", stage |-> "pages", sp |-> FALSE] ELSE cur
       sec == Other(hdr.primary)
       h2 == [hdr EXCEPT !.slots[sec] = Slot(x.slots[sec].txn, c.ver), !.primary = sec, !.tpc = FALSE]
   IN /\ (cur.stage = "idle" /\ ~explicit) \/ (cur.stage = "pages" /\ cur.kind = "1pc")
@@ -111,10 +111,9 @@ HdrMerged ==
      /\ pend' = pend \o HdrWrites(h2)
      /\ cur' = [c EXCEPT !.stage = "sync2"]
      /\ IF cur.stage = "idle"
-        THEN /\ parent' = ([parent EXCEPT ![nextVer] = visible] @@ (nextVer + 1) :> 0)
-             /\ vparts' = (vparts @@ (nextVer + 1) :> 0)
+        THEN /\ NewVersion(nextVer, visible, {}, FALSE)
              /\ nextVer' = nextVer + 1
-        ELSE UNCHANGED <<parent, vparts, nextVer>>
+        ELSE UNCHANGED <<parent, vparts, gone, pins, nextVer>>
      /\ UNCHANGED <<dgod, dslots, dpages, acked, visible, crashes, grows, bad>>
 
 HdrSwap == Swap /\ HdrIs(hdr', Line.h)
@@ -128,7 +127,7 @@ THdr ==
 
 TSync ==
   /\ Ev("sync")
-  /\ Sync1 \/ Sync2 \/ IdleSync
+  /\ Sync1 \/ Sync2 \/ PreSync \/ IdleSync
   /\ UNCHANGED explicit
 
 TraceInit == Init /\ l = 1 /\ explicit = FALSE
